@@ -47,6 +47,7 @@ type FuncContract struct {
 	Inline   bool
 	Trusted  bool // contract assumed, body not verified (external / out of reach); listed in evidence
 	Pure     bool // no heap effects; callers keep their heap
+	ParamNames []string // names the clauses use for the parameters (receiver first), by position; survives a renaming in the code
 	Requires []*Clause
 	Rejects  []*Clause // inputs for which the function must not return normally (checked in a separate pass)
 	Relies   []*Clause // rely conditions on lock-guarded state, assumed after every lock acquisition
@@ -116,7 +117,7 @@ func splitTags(s string) []string {
 
 var keywords = map[string]bool{"func": true, "mode": true, "props": true, "inline": true, "requires": true, "relies": true, "rejects": true, "ovfwrap": true, "let": true,
 	"assigns": true, "ensures": true, "loop": true, "spec": true, "end": true, "lemma": true, "fntype": true,
-	"guard": true, "guardcall": true, "shared": true, "role": true, "phase": true, "chan": true, "closer": true, "trusted": true, "safe": true, "shape": true, "note": true, "pure": true, "events": true, "freshresult": true, "maxpaths": true}
+	"guard": true, "guardcall": true, "shared": true, "role": true, "phase": true, "chan": true, "closer": true, "trusted": true, "safe": true, "shape": true, "params": true, "note": true, "pure": true, "events": true, "freshresult": true, "maxpaths": true}
 
 // contractLines extracts the //@ lines of a file together with positions.
 func contractLines(fset interface{ PositionString(p ast.Node) string }, f *ast.File, posOf func(*ast.Comment) string) (lines []string, poss []string) {
@@ -307,6 +308,8 @@ func ParseContracts(lines, poss []string) (*Contracts, error) {
 				cur.MaxPaths, _ = strconv.Atoi(rest)
 			case "shape":
 				cur.Shape = rest
+			case "params":
+				cur.ParamNames = strings.Fields(rest)
 			case "note":
 				cur.Notes = append(cur.Notes, rest)
 			case "assigns":
